@@ -529,6 +529,74 @@ def rect_property(case, out):
     return why
 
 
+def index_array_cases(rng, V, n_per_mode):
+    """fill through paired integer index arrays (as ChunkedPlateCarreeSampler does, samplers.py:865): element t of
+    the arrays addresses buffer pixel (by[t], bx[t]) and source pixel (iy[t], ix[t]).  Judged by the statement
+    itself (the model covers slice indexers).  Only fill: no caller updates through index arrays, the statement
+    speaks of rectangle indexers, and update_into_maskable_buffer does not support them on the unchanged tree
+    (it writes into the copy that fancy indexing returns) -- a first version of this check demanded that too and
+    raised a false alarm."""
+    from toasty.image import Image, ImageMode
+    done = 0
+    for mode in MODES:
+        bm = MASKABLE.get(mode, mode)
+        for k in range(n_per_mode):
+            sh, sw = gen_shape(rng)
+            bh, bw = gen_shape(rng)
+            npts = rng.randint(1, min(bh * bw, 12))
+            dest = rng.sample([(r, c) for r in range(bh) for c in range(bw)], npts)
+            srcp = [(rng.randrange(sh), rng.randrange(sw)) for _ in range(npts)]
+            src_a = rand_pixels(rng, mode, sh, sw, rng.choice(("none", "random", "block")))
+            old = rand_pixels(rng, bm, bh, bw, rng.choice(("none", "random", "all")))
+            fill = True
+            src = Image.from_array(src_a.copy())
+            buf = ImageMode[mode].make_maskable_buffer(bh, bw)
+            buf.asarray()[...] = old
+            iy, ix = np.array([p[0] for p in srcp]), np.array([p[1] for p in srcp])
+            by, bx = np.array([p[0] for p in dest]), np.array([p[1] for p in dest])
+            case = dict(type="index-arrays", mode=mode, fill=fill, sh=sh, sw=sw, bh=bh, bw=bw, src=pack(mode, src_a),
+                        buf=pack(bm, old), dest=[list(p) for p in dest], srcp=[list(p) for p in srcp])
+            try:
+                with warnings.catch_warnings():
+                    warnings.simplefilter("ignore")
+                    (src.fill_into_maskable_buffer if fill else src.update_into_maskable_buffer)(buf, iy, ix, by, bx)
+                out = np.array(buf.asarray())
+            except Exception as e:  # noqa
+                V.disagreement("C15 predicate: fill / update through paired index arrays", case, "completes", repr(e), True)
+                continue
+            done += 1
+            why = []
+            addressed = dict(zip(dest, srcp))
+            for r in range(bh):
+                for c in range(bw):
+                    o = out[r, c]
+                    if (r, c) not in addressed:
+                        if fill and not px_undefined(bm, o):
+                            why.append(f"fill: pixel {(r, c)} outside the addressed set is defined")
+                        if not fill and not px_equal(o, old[r, c]):
+                            why.append(f"update: pixel {(r, c)} outside the addressed set changed")
+                        continue
+                    sv = src_a[addressed[(r, c)]]
+                    sval = list(sv) + [255] if mode == "RGB" else sv
+                    if fill:
+                        if not px_equal(o, sval):
+                            why.append(f"fill: pixel {(r, c)} != source {addressed[(r, c)]}")
+                    elif mode in INT_MODES:
+                        if int(sv) == 0 and int(o) != int(old[r, c]):
+                            why.append(f"update: integer pixel {(r, c)} changed although its source is undefined (0)")
+                        elif int(sv) != 0 and int(old[r, c]) == 0 and int(o) != int(sv):
+                            why.append(f"update: undefined integer pixel {(r, c)} did not get the source value")
+                    elif px_undefined(mode, sv):
+                        if not px_equal(o, old[r, c]):
+                            why.append(f"update: pixel {(r, c)} changed although its source is undefined")
+                    elif not px_equal(o, sval):
+                        why.append(f"update: defined source did not replace pixel {(r, c)}")
+            if why:
+                V.disagreement("C15 predicate: fill / update through paired index arrays", case, "statement holds", why[:4], True)
+                return done
+    return done
+
+
 def g_rect(case, obs):
     return ("(mkR %s %s %s %s %s %s %s %s %s %s %s %s %s)" % (
         g_bool(case["fill"]), g_nat(MODES.index(case["mode"])), g_Z(case["sh"]), g_Z(case["sw"]), g_zlist(case["src"]),
@@ -971,6 +1039,7 @@ def run(ctx, V):
 
     # ---- fill / update
     rect_obs = [run_rect_case(c) for c in rect_cases]
+    n_index_arrays = index_array_cases(rng, V, 12 if quick else 120)
     terms = []
     idx = []
     nontrivial = set()
@@ -1055,7 +1124,7 @@ def run(ctx, V):
         slice_cases[-1],
     ]
     return dict(
-        evaluations=len(rect_cases) + len(slice_cases) + len(mask_cases) + len(hist_cases) + n_rt,
+        evaluations=len(rect_cases) + len(slice_cases) + len(mask_cases) + len(hist_cases) + n_rt + n_index_arrays, index_array_cases=n_index_arrays,
         distinct_nontrivial=len(nontrivial) + len(h_nontrivial),
         rule="fill/update: 8 modes x random source/buffer shapes (1-40 px per side, <= 200 px) x random slice quadruples "
              "(free-form and constructed; None/negative/out-of-range bounds, steps +-1..3, reversed rows, empty) x mask patterns "
